@@ -5,6 +5,7 @@ has no identity at all, so "is built-in data all the way down" is a typing fact.
 -/
 import SC.Lemmas.Fresh
 import SC.Seq
+import SC.Lemmas.IdHist
 namespace SC.Props
 open SC Tr
 
@@ -47,5 +48,25 @@ theorem C16_removed_detached (k : Key) (kvs : List (Key × T)) (old : T)
 
 /-- non-vacuity: a nested argument gets three fresh, distinct identities -/
 example : Tr.ids (fromBase (.dict () [(.s "a", .list () [.dict () []])] : J) 7).1 = [7, 8, 9] := by decide
+
+/-- C16 along histories: NO CONTAINER IS EVER STORED AT TWO PLACES.  After any history of public
+calls (through any handle, any operation, any argument — also arguments that were read from the
+collections themselves —, returning or raising), constructor calls and outside writers, the
+container identities in the objects' trees are pairwise distinct: within a tree (no node sits at
+two positions) and across objects (no node is shared by two collections).  Every container the
+library stores is its own object; what is stored for an argument is always a new copy
+(`C16_copy_in_fresh`), and neither the merge nor any operation body nor the store through a
+handle ever duplicates a reference. -/
+theorem C16_no_container_at_two_places_in_any_history (fams : List Fam) (history : List SStep) :
+    (flatIds (srun (State.empty fams) history).objs).Nodup :=
+  (srun_idOK history _ (empty_idOK fams)).nodup
+
+/-- ... in particular two different objects never share a container -/
+theorem C16_objects_share_nothing_in_any_history (fams : List Fam) (history : List SStep)
+    (j k : Nat) (a b : Obj) (hjk : j < k) :
+    let s := srun (State.empty fams) history
+    s.objs[j]? = some a → s.objs[k]? = some b → ∀ i ∈ Tr.ids a.root, i ∉ Tr.ids b.root := by
+  intro s ha hb
+  exact flat_disjoint s.objs j k a b (srun_idOK history _ (empty_idOK fams)).nodup ha hb hjk
 
 end SC.Props
